@@ -28,10 +28,10 @@ PLAN = dict(
                 "non-canonical inputs. The SCT boundary sub-check enumerates its described finite space completely on every run; the rest is sampled."),
     level_note=NOTE_BASE,
     runs=[
-        dict(name="exh", run="^(TestExhaustiveSCT|TestExhaustiveChainPresence|TestCorpus)$", timeout=(300, 900)),
-        dict(name="chain", run="^TestPropChain$", checks=(5000, 30000), shards=(1, 8), timeout=(300, 1800)),
-        dict(name="craft", run="^TestPropCrafted$", checks=(8000, 40000), shards=(1, 8), timeout=(300, 1800)),
-        dict(name="sct", run="^TestPropSCT$", checks=(4000, 30000), shards=(1, 4), timeout=(300, 1800)),
+        dict(name="exh", run="^(TestExhaustiveSCT|TestExhaustiveChainPresence|TestCorpus)$", timeout=(300, 3600)),
+        dict(name="chain", run="^TestPropChain$", checks=(5000, 150000), shards=(1, 16), timeout=(300, 3600)),
+        dict(name="craft", run="^TestPropCrafted$", checks=(8000, 200000), shards=(1, 16), timeout=(300, 3600)),
+        dict(name="sct", run="^TestPropSCT$", checks=(4000, 150000), shards=(1, 4), timeout=(300, 3600)),
     ],
     require=[("chain-roundtrip", "pattern:valid"), ("chain-roundtrip", "pattern:leaf-without-ocsp"), ("chain-roundtrip", "pattern:ocsp-on-nonleaf"),
              ("chain-roundtrip", "pattern:empty-chain"), ("chain-roundtrip", "ocsp-len-65536"), ("chain-roundtrip", "sct-len-65536"),
